@@ -51,6 +51,7 @@ func runC02(c *core.Ctx) {
 	c02R5(c)
 	c02R7(c)
 	c02R8(c, "C02.R8")
+	c02R9(c, "C02.R9")
 }
 
 // chanValidPred: channel.ChannelType != ChannelInvalid for the *security.Channel value ch
@@ -470,5 +471,57 @@ func c02R8(c *core.Ctx, rule string) {
 			ok = t1 && t2 && eng.HasLicensingEdgeOrValue(f, p1) && eng.HasLicensingEdgeOrValue(f, p2)
 		}
 		c.Check(ok, rule, fnName(f)+":me=0", f.Pos(), "Exclude ≡ option present ∧ value == 0", "Channel.Exclude is not `ok && v == 0` of the me option")
+	}
+}
+
+// c02R9: the per-connection bookkeeping moves once per admitted transition. Conn.subs (the list
+// Close walks, and the gate in front of the trie) is incremented/decremented only inside
+// broker.Conn's own CanSubscribe/CanUnsubscribe (and the unused exported Increment/Decrement),
+// and those are asked only by pubsub.Service.Subscribe/Unsubscribe: a second asker (a "cheap
+// pre-check" in a handler) consumes or adds a count, after which an acknowledged
+// subscription is not in the trie, or Close no longer removes it.
+func c02R9(c *core.Ctx, rule string) {
+	c.Rule(rule, "who-may-call: Counters.Increment/IncrementOnce/Decrement on Conn.subs only inside broker.Conn.{CanSubscribe,CanUnsubscribe,Increment,Decrement}; CanSubscribe/CanUnsubscribe (interface or concrete) only from pubsub.Service.Subscribe/Unsubscribe; broker.Conn.Increment/Decrement have no production caller", 4)
+	inner := map[string]bool{
+		"(*internal/broker.Conn).CanSubscribe": true, "(*internal/broker.Conn).CanUnsubscribe": true,
+		"(*internal/broker.Conn).Increment": true, "(*internal/broker.Conn).Decrement": true,
+	}
+	askers := map[string]string{
+		"CanSubscribe":   "(*internal/service/pubsub.Service).Subscribe",
+		"CanUnsubscribe": "(*internal/service/pubsub.Service).Unsubscribe",
+	}
+	for _, f := range c.P.ScopeFuncs() {
+		eng.Instrs(f, func(in ssa.Instruction) {
+			ci, ok := in.(ssa.CallInstruction)
+			if !ok {
+				return
+			}
+			obj := eng.CalleeObj(ci.Common())
+			if obj == nil {
+				return
+			}
+			id := eng.FuncID(obj)
+			switch id {
+			case M + "message.Counters.Increment", M + "message.Counters.IncrementOnce", M + "message.Counters.Decrement":
+				recv := eng.CallArgs(ci.Common())[0]
+				owner, fl, _, isField := eng.FieldOf(recv)
+				if !isField {
+					if b, ok := eng.LoadOfField(recv, "subs"); ok && b != nil {
+						owner, fl, isField = b.Type().String(), "subs", true
+					}
+				}
+				if !isField || fl != "subs" || !strings.Contains(owner, "broker.Conn") {
+					return
+				}
+				c.Count("callsites_analysed", 1)
+				c.Check(inner[fnName(f)], rule, fnName(f)+":moves Conn.subs ("+obj.Name()+")", in.Pos(), "the connection's counters move only inside its own Can*/Increment/Decrement methods", "the connection's subscription counters are moved from "+fnName(f)+": the bookkeeping no longer moves exactly once per admitted subscribe/unsubscribe")
+			case M + "service.Conn.CanSubscribe", M + "service.Conn.CanUnsubscribe", M + "broker.Conn.CanSubscribe", M + "broker.Conn.CanUnsubscribe":
+				c.Count("callsites_analysed", 1)
+				c.Check(fnName(f) == askers[obj.Name()], rule, fnName(f)+":asks "+obj.Name(), in.Pos(), "the bookkeeping is consulted only by the pubsub service, once per request", obj.Name()+" has a side effect (it moves the connection's counter) and is also called from "+fnName(f)+": each extra call adds or consumes a count, so an acknowledged subscription misses the trie or Close leaves it behind")
+			case M + "broker.Conn.Increment", M + "broker.Conn.Decrement":
+				c.Count("callsites_analysed", 1)
+				c.Fail(rule, fnName(f)+":calls Conn."+obj.Name(), in.Pos(), "broker.Conn."+obj.Name()+" moves the subscription counter outside the CanSubscribe/CanUnsubscribe protocol and had no production caller on the tree the rules were confirmed against")
+			}
+		})
 	}
 }
